@@ -1,0 +1,49 @@
+//go:build verif
+
+package replica
+
+import "github.com/lindb/lindb/models"
+
+// VerifReplicators returns the follower node ids which the partition has replicators for
+// (verification harness only).
+func VerifReplicators(p Partition) (ids []models.NodeID) {
+	pp := p.(*partition)
+	for id := range pp.replicators {
+		ids = append(ids, id)
+	}
+	return ids
+}
+
+// VerifReplicatorState returns the state of the replicator for the node.
+func VerifReplicatorState(p Partition, node models.NodeID) (state models.ReplicatorState, errMsg string, ok bool) {
+	pp := p.(*partition)
+	r, ok := pp.replicators[node]
+	if !ok {
+		return 0, "", false
+	}
+	st := r.State()
+	return st.state, st.errMsg, true
+}
+
+// VerifReplicaHandshake runs the ready check(IsReady && Connect) of the replicator for the node,
+// that's the first half of one iteration of the replica loop.
+func VerifReplicaHandshake(p Partition, node models.NodeID) bool {
+	pp := p.(*partition)
+	r, ok := pp.replicators[node]
+	if !ok {
+		return false
+	}
+	return r.IsReady() && r.Connect()
+}
+
+// VerifReplicaRound runs one iteration of the replica loop for the node(instead of the free-running loop),
+// does nothing if no message is pending(consume blocks when the log is empty).
+func VerifReplicaRound(p Partition, node models.NodeID) bool {
+	pp := p.(*partition)
+	r, ok := pp.replicators[node]
+	if !ok || r.Pending() <= 0 {
+		return false
+	}
+	pp.replica(node, r)
+	return true
+}
